@@ -38,6 +38,46 @@ pub fn agree_case(fam: &Family, enc: Enc, a: u32, b: u32, loc: &mut Local) -> Ve
 }
 
 // ------------------------------------------------------------------------------------------------
+// power-of-two scales: multiplying every coordinate by 2^k is exact in both types and commutes with every
+// floating-point operation of the algorithm as long as nothing overflows or underflows, so the f64 result
+// of the scaled operands must be the scaled f64 result bit for bit, and the f32 result must equal it.
+// The exponents keep every quantity the unchanged code depends on (coordinates, their differences and
+// pairwise products) far inside the f32 range; only sign tests are applied to degree-4 quantities.
+// ------------------------------------------------------------------------------------------------
+
+pub const SCALE_EXPONENTS: [i32; 4] = [-24, 24, 33, 45];
+
+pub fn agree_scaled_case(fam: &Family, enc: Enc, a: u32, b: u32, k: i32, loc: &mut Local) -> Vec<String> {
+    let s = 2f64.powi(k);
+    let sc = |p: P| (p.0 * s, p.1 * s);
+    let (pa0, pb0) = (&fam.enc(enc)[a as usize], &fam.enc(enc)[b as usize]);
+    let (pa, pb) = (crate::nf::map_mp(pa0, &sc), crate::nf::map_mp(pb0, &sc));
+    let mut cl = vec![];
+    for op in OPS {
+        let base = call_full(pa0, pb0, op, Ft::F64, Pairing::MM);
+        let (x, y) = (
+            call_full(&pa, &pb, op, Ft::F64, Pairing::MM),
+            call_full(&pa, &pb, op, Ft::F32, Pairing::MM),
+        );
+        loc.transitions += 3;
+        match (base.res, x.res, y.res) {
+            (Ok(r0), Ok(r64), Ok(r32)) => {
+                if !mp_bits_eq(&crate::nf::map_mp(&r0, &sc), &r64) {
+                    cl.push(format!("C10 scaled-2^{k}: f64-result-is-not-the-scaled-result {}", op_name(op)));
+                }
+                if !mp_bits_eq(&r64, &r32) {
+                    cl.push(format!("C10 scaled-2^{k}: f32-result!=f64-result {}", op_name(op)));
+                }
+            }
+            (_, Ok(_), Err(_)) => cl.push(format!("C10 scaled-2^{k}: f32-panics-where-f64-returns {}", op_name(op))),
+            (Ok(_), Err(_), _) => cl.push(format!("C10 scaled-2^{k}: f64-panics-on-the-scaled-operands {}", op_name(op))),
+            _ => {}
+        }
+    }
+    cl
+}
+
+// ------------------------------------------------------------------------------------------------
 // near-collinear fans: two triangles that share only an apex O; the edges leaving O are almost collinear
 // (the far end R of one lies 1..3 units to the right of the line O->P of the other, at distances of ~2*10^7).
 // All coordinates are integers below 2^24 in magnitude (exact in f32 and f64), coordinate differences are
@@ -48,6 +88,8 @@ pub fn agree_case(fam: &Family, enc: Enc, a: u32, b: u32, loc: &mut Local) -> Ve
 // ------------------------------------------------------------------------------------------------
 
 pub const N_FANS: usize = 48;
+pub const TINY_EXPONENT: i32 = -40;
+pub const SCALED_QUICK: [&str; 5] = ["G22", "G32", "G23", "T22", "O21"];
 
 pub fn fan(k: usize) -> (MP, MP) {
     let mut st: u64 = 0x9E3779B97F4A7C15u64.wrapping_mul(k as u64 + 17);
@@ -134,6 +176,17 @@ pub fn replay(case: &Value, verbose: bool) -> Vec<String> {
         let mut loc = Local::default();
         return fan_case(k, sw, &mut loc);
     }
+    if case["kind"] == "agree-scaled" {
+        let fam = family_cached(case["family"].as_str().unwrap());
+        let enc = enc_from(case["enc"].as_str().unwrap_or("M"));
+        let (a, b) = (case["a"].as_u64().unwrap() as u32, case["b"].as_u64().unwrap() as u32);
+        let k = case["k"].as_i64().unwrap() as i32;
+        if verbose {
+            println!("A = {} x 2^{k}\nB = {} x 2^{k}", hex(&fam.enc(enc)[a as usize]), hex(&fam.enc(enc)[b as usize]));
+        }
+        let mut loc = Local::default();
+        return agree_scaled_case(&fam, enc, a, b, k, &mut loc);
+    }
     if case["kind"] == "agree" {
         let fam = family_cached(case["family"].as_str().unwrap());
         let enc = enc_from(case["enc"].as_str().unwrap_or("M"));
@@ -188,10 +241,59 @@ pub fn run(tier: &str) -> i32 {
                 }
                 st.merge(&loc);
             });
+            // power-of-two scales (quick: five small families, M encoding; thorough: both encodings of all quick families)
+            if (enc == Enc::M && SCALED_QUICK.contains(&name)) || (thorough && QUICK_COMPLEX.contains(&name)) {
+                st.family(&format!(
+                    "{name}/{}: operands scaled by 2^k, k in {:?}: f64 result == scaled result and f32 result == f64 result bit for bit on {} ordered pairs per scale",
+                    enc.name(),
+                    SCALE_EXPONENTS,
+                    n as u64 * n as u64
+                ));
+                (0..n).into_par_iter().for_each(|a| {
+                    let mut loc = Local::default();
+                    for b in 0..n {
+                        for k in SCALE_EXPONENTS {
+                            loc.states += 1;
+                            if fam.nontrivial(a, b) {
+                                loc.nontrivial += 1;
+                            }
+                            for c in agree_scaled_case(&fam, enc, a, b, k, &mut loc) {
+                                loc.violation(&c, format!("{name}:{}:{a}:{b}:2^{k}:{}", enc.name(), clause_op(&c)), json!({"prop": "C10", "kind": "agree-scaled", "family": name, "enc": enc.name(), "a": a, "b": b, "k": k}));
+                            }
+                        }
+                    }
+                    st.merge(&loc);
+                });
+            }
             // every base oracle in f32 (quick: M encoding; thorough: both)
             if enc == Enc::M || thorough {
                 sweep_complex(&st, "C10", &fam, enc, Ft::F32, &want);
             }
+        }
+    }
+    // the far end of the exponent range (finding N4): single faces of T22 scaled by 2^-40. The squared cross
+    // product of two edges (2^-160) underflows in f32, the unchanged code takes crossing and touching edges for
+    // parallel ones, and the f32 result differs from the f64 result. Failing members are listed individually.
+    {
+        let fam = Family::new("T22");
+        let nf = (fam.cx.noperands() as f64).log2().round() as u32;
+        st.family(&format!(
+            "T22/M single faces scaled by 2^{TINY_EXPONENT}: {} ordered pairs, f32 vs f64 bit for bit (finding N4: intermediate products underflow in f32)",
+            nf * nf
+        ));
+        for i in 0..nf {
+            let mut loc = Local::default();
+            for j in 0..nf {
+                let (a, b) = (1u32 << i, 1u32 << j);
+                loc.states += 1;
+                if fam.nontrivial(a, b) {
+                    loc.nontrivial += 1;
+                }
+                for c in agree_scaled_case(&fam, Enc::M, a, b, TINY_EXPONENT, &mut loc) {
+                    loc.violation(&c, format!("T22:M:{a}:{b}:2^{TINY_EXPONENT}:{}", clause_op(&c)), json!({"prop": "C10", "kind": "agree-scaled", "family": "T22", "enc": "M", "a": a, "b": b, "k": TINY_EXPONENT}));
+                }
+            }
+            st.merge(&loc);
         }
     }
     // general-position table rounded to f32, single-precision tolerances
@@ -242,7 +344,7 @@ pub fn run(tier: &str) -> i32 {
     }
     finish(
         &st,
-        &format!("{RULE}; C10: every pair is run in f32 and f64: on complex families (small integer coordinates, integer or half-integer intersection points) the widened f32 result must equal the f64 result bit for bit and pop the same number of sweep events; the oracles of C01 C02 C04 C05 are evaluated on the f32 results; a point table rounded to f32 is checked with single-precision tolerance (1e-4 x magnitude)"),
+        &format!("{RULE}; C10: every pair is run in f32 and f64: on complex families (small integer coordinates, integer or half-integer intersection points) the widened f32 result must equal the f64 result bit for bit and pop the same number of sweep events; the same with every coordinate multiplied by 2^k (k in -24, 24, 33, 45), where in addition the f64 result must be the scaled unscaled result bit for bit; the oracles of C01 C02 C04 C05 are evaluated on the f32 results; a point table rounded to f32 is checked with single-precision tolerance (1e-4 x magnitude)"),
         &["f32 operands are produced by rounding the f64 operand; on complex families this is exact"],
         true,
         Some(&|c| replay(c, false)),
